@@ -10,7 +10,7 @@ from . import stoglib as SL
 
 ID = "C12"
 CHECKER = "chk_step"
-THEOREMS = ['C12_transform_is_library_call', 'C12_transform_table', 'C12_filter_is_library_call', 'C12_filter_table', 'C12_filter_autotransforms', 'C12_merged_curves_never_modified', 'C12_merged_curves_never_modified_any', 'C12_transform_history_independent', 'C12_filter_history_independent', 'C12_step_idempotent', 'C12_lorch_is_library_call', 'C12_keen_fq_is_conversion', 'C12_keen_gr_is_conversion', 'C12_keen_gr_formulas', 'C12_stored_curves_are_functions_of_merged', 'C12g_transform_is_library_call', 'C12g_filter_autotransforms', 'C12g_merged_curves_never_modified', 'C12g_merged_curves_never_modified_any', 'C12g_transform_history_independent', 'C12g_filter_history_independent', 'C12g_step_idempotent', 'C12g_cli_is_a_workflow_run', 'C12g_filter_history_independent_binary64', 'C12g_cli_is_a_workflow_run_binary64', 'C12_lowr_get_is_library_call', 'C12_lowr_square_is_sum_of_squares', 'C12_lowr_homogeneous', 'C12_lowr_zero_iff_curve_vanishes_below_limit', 'C12_lowr_ignores_points_beyond_limit', 'C12_lowr_monotone_in_limit', 'C12_lowr_whole_curve', 'C12_lowr_empty_window', 'C12g_lowr_get_reads_stored_curve', 'C12g_lowr_ignores_unmasked_points', 'C12g_lowr_selection_is_a_sublist', 'C12g_lowr_ignores_unmasked_points_binary64']
+THEOREMS = ['C12_transform_is_library_call', 'C12_transform_table', 'C12_filter_is_library_call', 'C12_filter_table', 'C12_filter_autotransforms', 'C12_merged_curves_never_modified', 'C12_merged_curves_never_modified_any', 'C12_transform_history_independent', 'C12_filter_history_independent', 'C12_step_idempotent', 'C12_lorch_is_library_call', 'C12_keen_fq_is_conversion', 'C12_keen_gr_is_conversion', 'C12_keen_gr_formulas', 'C12_stored_curves_are_functions_of_merged', 'C12g_transform_is_library_call', 'C12g_filter_autotransforms', 'C12g_merged_curves_never_modified', 'C12g_merged_curves_never_modified_any', 'C12g_transform_history_independent', 'C12g_filter_history_independent', 'C12g_step_idempotent', 'C12g_cli_is_a_workflow_run', 'C12g_filter_history_independent_binary64', 'C12g_cli_is_a_workflow_run_binary64', 'C12_lowr_get_is_library_call', 'C12_lowr_square_is_sum_of_squares', 'C12_lowr_homogeneous', 'C12_lowr_zero_iff_curve_vanishes_below_limit', 'C12_lowr_ignores_points_beyond_limit', 'C12_lowr_monotone_in_limit', 'C12_lowr_whole_curve', 'C12_lowr_empty_window', 'C12g_lowr_get_reads_stored_curve', 'C12g_lowr_ignores_unmasked_points', 'C12g_lowr_selection_is_a_sublist', 'C12g_lowr_ignores_unmasked_points_binary64', 'C12g_lowr_history_independent', 'C12g_lowr_after_transform']
 RULE = ("merged S(Q) data x three real-space functions x omitted-range option on/off x every legal op sequence up to length 3 (quick; sampled "
         "to 5 in thorough) over transform_merged / fourier_filter / apply_lorch / Keen F(Q) / Keen G(r) with arguments taken from the merged or "
         "filtered curves; every executed step is one correspondence case from the implementation's own pre-state; non-trivial = the step "
